@@ -1,5 +1,6 @@
 import HcipyVerif.Lemmas.Layer
 import HcipyVerif.Lemmas.LayerHeap
+import HcipyVerif.Lemmas.MultiLayer
 import HcipyVerif.Lemmas.ShiftCyc
 
 /-!
@@ -485,17 +486,6 @@ theorem phase_inverse_wavelength {K : Type} [Field K] (a l m : K) (hl : l ≠ 0)
   · rw [div_one]
 
 
-/-- the amplitudes: if `a₁ = sqrt c` and `a₂ = sqrt (k² c)` (`aᵢ ≥ 0`, `aᵢ² = …`) then `a₂ = k·a₁` -/
-theorem sqrt_strength_amplitude {K : Type} [Field K] [LinearOrder K] [IsStrictOrderedRing K] (c k a₁ a₂ : K)
-    (hk : 0 ≤ k) (h₁ : 0 ≤ a₁) (h₂ : 0 ≤ a₂) (e₁ : a₁ ^ 2 = c) (e₂ : a₂ ^ 2 = k ^ 2 * c) : a₂ = k * a₁ := by
-  have h : (a₂ - k * a₁) * (a₂ + k * a₁) = 0 := by rw [← e₁] at e₂; linear_combination e₂
-  rcases mul_eq_zero.mp h with h | h
-  · linarith
-  · have hka : 0 ≤ k * a₁ := mul_nonneg hk h₁
-    have : a₂ = 0 := by linarith
-    have : k * a₁ = 0 := by linarith
-    linarith
-
 /-- **Phase ∝ sqrt(Cn²), infinite layer, every later screen.**  `arRun` is the code's numeric extrusion
 (`A.dot(screen[stencil]) + B.dot(normals)·sqrt(Cn²)`, then the `hstack`/`vstack`/flip surgery), run by the driver on
 the real `A`, `B`, stencils and normals.  If the initial screen of the layer with strength `k²·c` is `k` times the
@@ -857,5 +847,203 @@ theorem finC_refines_finL (C : FinC) (o : Op) :
   · intro hv
     rcases C with ⟨b, v, ca⟩
     cases ca <;> simp_all [FinC.step, FinC.read]
+
+/-! ## `MultiLayerAtmosphere`: element list, fan-out, replay, scaling of the sum (round 5)
+
+All definitions are the ones the driver runs (`elements`, `atm …`, `mla …`, `atmphase`), compared with the real
+`MultiLayerAtmosphere` after every operation. -/
+
+/-- **Order of the elements**: the light meets the layers in order of non-increasing height — for every list of heights
+(any order, ties, zeros, negative values) and both values of `scintillation`. -/
+theorem elements_order_nonincreasing (s : Bool) (hs : List Rat) :
+    ((layerOrder (buildElements s hs)).map (fun j => hs.getD j 0)).Pairwise (fun a b => b ≤ a) := by
+  unfold buildElements
+  rw [layerOrder_elementsOf, List.map_map]
+  have : (sortDesc (indexed hs)).map ((fun j => hs.getD j 0) ∘ Prod.fst) = (sortDesc (indexed hs)).map Prod.snd :=
+    List.map_congr_left (fun x hx => sorted_entry hs x hx)
+  rw [this, List.pairwise_map]
+  exact sortDesc_desc _
+
+/-- **Every layer is used exactly once**: the layers of the element list are a permutation of `layers`. -/
+theorem elements_layers_perm (s : Bool) (hs : List Rat) :
+    (layerOrder (buildElements s hs)).Perm (List.range hs.length) := by
+  unfold buildElements
+  rw [layerOrder_elementsOf]
+  have h := (sortDesc_perm (indexed hs)).map Prod.fst
+  rw [indexed, indexedFrom_fst, ← List.range_eq_range'] at h
+  exact h
+
+/-- **The propagation distances sum to the highest layer height** (scintillation on, heights ≥ 0): from the highest
+layer down to the ground, whatever the order in which the layers were given, with ties and with layers on the ground. -/
+theorem elements_distances_sum (hs : List Rat) (hne : hs ≠ []) (h0 : ∀ h ∈ hs, 0 ≤ h) :
+    ∃ m ∈ hs, (∀ h ∈ hs, h ≤ m) ∧ propSum (buildElements true hs) = m := by
+  have hperm := sortDesc_perm (indexed hs)
+  have hmem : ∀ z : Nat × Rat, z ∈ indexed hs → z.2 ∈ hs := by
+    intro z hz
+    have : z.2 ∈ (indexed hs).map Prod.snd := List.mem_map_of_mem hz
+    rwa [indexed, indexedFrom_snd] at this
+  have hof : ∀ h ∈ hs, ∃ z ∈ indexed hs, z.2 = h := by
+    intro h hh
+    have : h ∈ (indexed hs).map Prod.snd := by rw [indexed, indexedFrom_snd]; exact hh
+    obtain ⟨z, hz, e⟩ := List.mem_map.1 this
+    exact ⟨z, hz, e⟩
+  cases hsd : sortDesc (indexed hs) with
+  | nil =>
+    have hl := hperm.length_eq
+    rw [hsd] at hl
+    have h2 : ((indexed hs).map Prod.snd).length = 0 := by rw [List.length_map]; exact hl.symm
+    rw [indexed, indexedFrom_snd] at h2
+    exact absurd (List.length_eq_zero_iff.1 h2) hne
+  | cons x r =>
+    have hd : Desc (x :: r) := hsd ▸ sortDesc_desc (indexed hs)
+    have hx : x ∈ indexed hs := hperm.mem_iff.1 (hsd ▸ List.mem_cons_self ..)
+    refine ⟨x.2, hmem x hx, ?_, ?_⟩
+    · intro h hh
+      obtain ⟨z, hz, e⟩ := hof h hh
+      have : z ∈ x :: r := hsd ▸ hperm.mem_iff.2 hz
+      rcases List.mem_cons.1 this with rfl | hzr
+      · exact e ▸ le_refl _
+      · exact e ▸ (List.pairwise_cons.1 hd).1 z hzr
+    · unfold buildElements
+      rw [hsd]
+      apply propSum_elementsOf
+      intro z hz
+      exact h0 _ (hmem z (hperm.mem_iff.1 (hsd ▸ hz)))
+
+example : ([3, 0, 5/2] : List Rat) ≠ [] ∧ ∀ h ∈ ([3, 0, 5/2] : List Rat), 0 ≤ h := by
+  refine ⟨by simp, ?_⟩; intro h hh; simp at hh; rcases hh with rfl | rfl | rfl <;> norm_num
+
+/-- every propagation distance is non-negative (heights ≥ 0) -/
+theorem elements_distances_nonneg (s : Bool) (hs : List Rat) (h0 : ∀ h ∈ hs, 0 ≤ h) :
+    ∀ e ∈ buildElements s hs, 0 ≤ e.dist := by
+  have hperm := sortDesc_perm (indexed hs)
+  apply dist_nonneg_elementsOf s _ (sortDesc_desc _)
+  intro z hz
+  have : z.2 ∈ (indexed hs).map Prod.snd := List.mem_map_of_mem (hperm.mem_iff.1 hz)
+  rw [indexed, indexedFrom_snd] at this
+  exact h0 _ this
+
+/-- **Scintillation off: no propagator at all**, the element list is the sorted list of layers. -/
+theorem elements_without_scintillation (hs : List Rat) :
+    ∀ e ∈ buildElements false hs, ∃ j, e = El.layer j := by
+  intro e he
+  unfold buildElements at he
+  rw [elementsOf_false] at he
+  obtain ⟨x, _, rfl⟩ := List.mem_map.1 he
+  exact ⟨x.1, rfl⟩
+
+/-- **The element list in use is current**: after any history of `layers = …`, `scintillation = …` (same value, other
+value, repeated), explicit `calculate_propagators()` and propagations, the list a `forward`/`backward` uses is the one
+of the current layers and the current flag (a pending rebuild survives a scintillation assignment). -/
+theorem elements_current_after_propagate (hs : List Rat) (s : Bool) (h : List AOp)
+    (hh : ∀ o ∈ h, o.isSetHeight = false) :
+    let A := (Atm.new hs s).run h
+    (A.step .propagate).elements = buildElements A.scint A.heights ∧ (A.step .propagate).dirty = false := by
+  intro A
+  have hi : A.Inv := Atm.run_inv h _ hh (Atm.new_inv hs s)
+  by_cases hd : A.dirty = true
+  · simp [Atm.step, hd, Atm.calc]
+  · rcases hi with h1 | h1
+    · exact absurd h1 hd
+    · simpa [Atm.step, hd] using h1
+
+example : ∀ o ∈ [AOp.setScint true, AOp.setLayers [1, 2], AOp.setScint true, AOp.propagate, AOp.recalc],
+    o.isSetHeight = false := by decide
+
+/-- the hypothesis of `elements_current_after_propagate` is needed: `layer.height = h` on a layer object is not
+noticed by the atmosphere, the next propagation still uses the old distances (code as it is; recorded, not judged). -/
+theorem elements_stale_after_height_change :
+    (((Atm.new [1, 2] true).step (.setHeight 0 3)).step .propagate).elements
+      ≠ buildElements true [3, 2] := by decide +kernel
+
+/-- **Replay after reset, `MultiLayerAtmosphere`.**  Build the atmosphere from layers with seeds, run any history of
+`evolve_until` / `t = …` (also refused ones, which leave some layers evolved and others not), `reset()`,
+`Cn_squared = …`, `outer_scale = …` and operations on the individual layer objects (no independent realisation
+requested on a layer), then `reset()`: the atmosphere is — as a state: every layer's generators, noise / symbolic
+screen, centre, time, and `atm.t` — the atmosphere freshly built from the same seeds with the velocities and parameters
+in force, hence every later history shows the screens and times of that fresh atmosphere. -/
+theorem replay_after_reset_multilayer (specs : List Spec) (h₁ h : List MOp) (hh : ∀ o ∈ h₁, o.isIndep = false) :
+    let B := (MLA.new specs).run h₁
+    B.step .reset = MLA.new (currentSpecs specs B.layers) ∧
+    (B.step .reset).screens h = (MLA.new (currentSpecs specs B.layers)).screens h := by
+  intro B
+  have hid : B.layers.map AnyL.ident = (specs.map AnyL.new).map AnyL.ident := MLA.run_idents h₁ (MLA.new specs) hh
+  have : B.step .reset = MLA.new (currentSpecs specs B.layers) := by
+    show B.reset = _
+    rw [MLA.reset_eq, hid, ofIdents_new]
+  rw [this]; exact ⟨rfl, rfl⟩
+
+/-- … and without parameter changes in the first run it is the atmosphere as it was built. -/
+theorem replay_after_reset_multilayer_same_params (specs : List Spec) (h₁ h : List MOp)
+    (hh : ∀ o ∈ h₁, o.isIndep = false) (hs : ∀ o ∈ h₁, o.isSet = false) :
+    (((MLA.new specs).run h₁).step .reset) = MLA.new specs ∧
+    (((MLA.new specs).run h₁).step .reset).screens h = (MLA.new specs).screens h := by
+  have h1 := (replay_after_reset_multilayer specs h₁ h hh).1
+  have hvp : ((MLA.new specs).run h₁).layers.map AnyL.vp = specs.map (fun s => (s.vel, s.par)) := by
+    rw [MLA.run_vp h₁ _ hs]
+    simp [MLA.new, List.map_map, Function.comp_def, AnyL.new_vp]
+  have : ((MLA.new specs).run h₁).step .reset = MLA.new specs := by
+    rw [h1, currentSpecs_same specs _ hvp]
+  rw [this]; exact ⟨rfl, rfl⟩
+
+example : (∀ o ∈ [MOp.evolve 1, MOp.setCn2 4, MOp.direct 1 (.evolve 3), MOp.evolve 2, MOp.reset], o.isIndep = false) ∧
+    (∀ o ∈ [MOp.evolve 1, MOp.direct 1 (.evolve 3), MOp.evolve 2, MOp.reset], o.isSet = false) := by decide
+
+/-- **Fan-out of the time**: when no layer refuses (`t` not before any layer's time — always so for finite layers after
+the atmosphere's own operations), `evolve_until(t)` / `atm.t = t` leaves every layer and the atmosphere at time `t`;
+`reset()` leaves every layer and the atmosphere at time zero. -/
+theorem multilayer_time_fanout (A : MLA) (t : Rat) (ht : ∀ a ∈ A.layers, a.t ≤ t) :
+    (A.step (.evolve t)).t = t ∧ (∀ a ∈ (A.step (.evolve t)).layers, a.t = t) ∧
+    (A.step .reset).t = 0 ∧ ∀ a ∈ (A.step .reset).layers, a.t = 0 := by
+  have h := evolveAll_t t A.layers ht
+  refine ⟨by simp [MLA.step, MLA.evolve, h.1], h.2, rfl, ?_⟩
+  intro a ha
+  obtain ⟨b, _, rfl⟩ := List.mem_map.1 ha
+  exact b.reset_t false
+
+example : ∀ a ∈ (MLA.new [⟨false, 2, 2, (1, 1), (1, 0), ⟨1, 10⟩, 3⟩, ⟨true, 2, 2, (1, 1), (1, 0), ⟨1, 10⟩, 4⟩]).layers,
+    a.t ≤ 5 := by decide +kernel
+
+/-- **D515.** Before the repair `MultiLayerAtmosphere.reset()` rewound the layers but not its own clock: after
+`evolve_until(1); reset()` the atmosphere reports `t = 1` while every layer is at time zero. -/
+theorem multilayer_reset_old_counterexample :
+    let A := MLA.new [⟨false, 2, 2, (1, 1), (1, 0), ⟨1, 10⟩, 3⟩, ⟨true, 2, 2, (1, 1), (1, 0), ⟨1, 10⟩, 4⟩]
+    ((A.stepOld (.evolve 1)).stepOld .reset).t = 1 ∧ (∀ a ∈ ((A.stepOld (.evolve 1)).stepOld .reset).layers, a.t = 0) ∧
+    ((A.step (.evolve 1)).step .reset).t = 0 := by decide +kernel
+
+/-- **A refused `evolve_until` is not atomic** (code as it is): with a finite layer in front of an infinite one, a
+backwards time moves the finite layer, is refused by the infinite layer, and the atmosphere keeps its old time. -/
+theorem multilayer_refused_evolve_is_partial :
+    let A := (MLA.new [⟨false, 2, 2, (1, 1), (1, 0), ⟨1, 10⟩, 3⟩, ⟨true, 2, 2, (1, 1), (1, 0), ⟨1, 10⟩, 4⟩]).step (.evolve 3)
+    (A.step (.evolve 1)).t = 3 ∧ (A.step (.evolve 1)).layers.map AnyL.t = [1, 3] := by decide +kernel
+
+/-- **`atm.Cn_squared = T`**: every layer's strength is multiplied by the same factor `T / (old total)`, and the new
+total is `T` — so (with `phase_sqrt_strength` for each layer) every layer's screen, hence the sum, scales by the root
+of that factor. -/
+theorem multilayer_setCn2_proportional (A : MLA) (T : Rat) (hT : totalCn2 A.layers ≠ 0) :
+    totalCn2 (A.step (.setCn2 T)).layers = T ∧
+    (A.step (.setCn2 T)).layers.map (·.par.cn2) = A.layers.map (fun a => a.par.cn2 * (T / totalCn2 A.layers)) := by
+  have hf : ∀ a : AnyL, (a.step (.setCn2 (a.par.cn2 / totalCn2 A.layers * T))).par.cn2
+      = a.par.cn2 * (T / totalCn2 A.layers) := by
+    intro a; rw [(a.setCn2_par _).1]; field_simp
+  constructor
+  · show totalCn2 (A.layers.map _) = T
+    rw [totalCn2_map (T / totalCn2 A.layers) _ hf]
+    field_simp
+  · show (A.layers.map _).map _ = _
+    rw [List.map_map]
+    exact List.map_congr_left (fun a _ => hf a)
+
+example : totalCn2 (MLA.new [⟨false, 2, 2, (1, 1), (1, 0), ⟨1, 10⟩, 3⟩, ⟨true, 2, 2, (1, 1), (1, 0), ⟨3, 10⟩, 4⟩]).layers ≠ 0 := by
+  decide +kernel
+
+/-- **`atm.phase_for(λ) ∝ 1/λ`**: the sum over the layers times `λ` is the sum of the achromatic screens. -/
+theorem multilayer_phase_inverse_wavelength {K : Type} [Field K] (as : List K) (l m : K) (hl : l ≠ 0) (hm : m ≠ 0) :
+    atmPhase l as * l = atmPhase m as * m ∧ atmPhase l as * l = as.sum := by
+  rw [atmPhase_mul l hl, atmPhase_mul m hm]; exact ⟨rfl, rfl⟩
+
+/-- **`atm.phase_for ∝ sqrt(total Cn²)`**: when every layer's screen is `k` times as large, the sum is. -/
+theorem multilayer_phase_sqrt_strength {K : Type} [Field K] (as : List K) (l k : K) :
+    atmPhase l (as.map (k * ·)) = k * atmPhase l as := atmPhase_scale l k as
 
 end HcipyVerif.C15
